@@ -25,6 +25,17 @@ type c02Msg struct {
 	Rcpts  []string
 	AbortA bool // abort after body was stored
 	AbortB bool // abort before body
+	Empty  bool // the message consists of a header only (0-byte body file in the spool)
+}
+
+// c02Build makes the message of a scenario entry.
+func c02Build(m c02Msg) qhMsg {
+	qm := qhSimpleMsg(m.ID, m.From, m.Rcpts...)
+	qm.AbortAfterBody, qm.AbortBeforeBody = m.AbortA, m.AbortB
+	if m.Empty {
+		qm.Body = []byte{}
+	}
+	return qm
 }
 
 type c02Scenario struct {
@@ -57,6 +68,10 @@ func c02Scenarios(thorough bool) []c02Scenario {
 			Script: map[string]int{"m1/1/start/": qhT, "m1/2/body/": qhU}},
 		{Name: "S8-status-mix", Partial: true, Msgs: []c02Msg{{ID: "m1", From: "s@example.com", Rcpts: []string{"a1@example.org", "b1@example.org", "c1@example.org"}}}, MaxTries: 3,
 			Script: map[string]int{"m1/1/status/b1@example.org": qhP, "m1/1/status/c1@example.org": qhT}},
+		{Name: "S11-empty-body", Msgs: []c02Msg{{ID: "m1", From: "s@example.com", Rcpts: []string{"a1@example.org", "b1@example.org"}, Empty: true}}, MaxTries: 3,
+			Script: map[string]int{"m1/1/rcpt/b1@example.org": qhT}},
+		{Name: "S12-empty-body-per-recipient", Partial: true, Msgs: []c02Msg{{ID: "m1", From: "s@example.com", Rcpts: []string{"a1@example.org", "b1@example.org"}, Empty: true}, {ID: "m2", From: "s@example.com", Rcpts: []string{"a2@example.org"}}}, MaxTries: 2,
+			Script: map[string]int{"m1/1/status/a1@example.org": qhT, "m1/2/status/a1@example.org": qhP}},
 		{Name: "S9-commit-fails", Msgs: []c02Msg{{ID: "m1", From: "s@example.com", Rcpts: []string{"a1@example.org"}}}, MaxTries: 3,
 			Script: map[string]int{"m1/1/commit/": qhT}},
 	}
@@ -330,9 +345,7 @@ func c02Original(dir string, sc c02Scenario) c02Run {
 			panic(err)
 		}
 		for _, m := range sc.Msgs {
-			qm := qhSimpleMsg(m.ID, m.From, m.Rcpts...)
-			qm.AbortAfterBody, qm.AbortBeforeBody = m.AbortA, m.AbortB
-			qhSubmit(q, qm)
+			qhSubmit(q, c02Build(m))
 		}
 	})
 	r := c02Run{ops: vos.Rec.Ops, tgt: tgt, bounce: bounce, endAt: out.EndedAt}
@@ -411,6 +424,11 @@ func c02Judge(sc c02Scenario, facts c02Facts, rec c02Run, dir string) (string, s
 		// an acknowledged message reaches the target with the content that was accepted
 		if facts.acked[d.MsgID] && d.BodySeen {
 			want := qhSimpleMsg(d.MsgID, "x")
+			for _, m := range sc.Msgs {
+				if m.ID == d.MsgID {
+					want = c02Build(m)
+				}
+			}
 			if string(d.Body) != string(want.Body) {
 				return "C02:acknowledged-content-damaged:body", fmt.Sprintf("message %s was acknowledged before the crash; after restart its body is %q, accepted was %q", d.MsgID, d.Body, want.Body)
 			}
@@ -708,9 +726,7 @@ func c02Schedules(r *vx.Run, d0 string, sc c02Scenario, def c02Run, replay *c02C
 					panic(err)
 				}
 				for _, m := range sc.Msgs {
-					qm := qhSimpleMsg(m.ID, m.From, m.Rcpts...)
-					qm.AbortAfterBody, qm.AbortBeforeBody = m.AbortA, m.AbortB
-					qhSubmit(q, qm)
+					qhSubmit(q, c02Build(m))
 				}
 			},
 			Check: func(o *vsched.Outcome) (string, string) { return "", "" },
